@@ -38,6 +38,7 @@ CONSTANTS Elems, Prefixes
 
 Pre0 == {<<>>}
 Pre2 == {<<>>, <<67, 58>>, <<100, 58>>, <<69, 58>>}            \* none, "C:", "d:", "E:" (not mounted)
+Pre3 == {<<>>, <<100, 58>>, <<69, 58>>}
 
 InitFs == [dirs  |-> {<<nS>>, <<nS, nM>>, <<nS, nM, nA>>, <<nS, nM, nB>>, <<nS, nM, nA, nA>>, <<nS, nM, nA, nB>>,
                       <<nS, nM2>>, <<nS, nM2, nA>>, <<nS, nSIB>>, <<nS, nSIB, nA>>},
